@@ -11,13 +11,14 @@ Local Open Scope N_scope.
     interface and names the local AS as next hop, all signature verdicts are
     positive and at least one policy accepts it. *)
 Theorem C25_stored_iff : forall c st b, bits_disjoint (pols c) = true ->
+  length (b_sigs b) = length (b_hops b) ->      (* one verdict per AS entry: "all its signatures verify" *)
   ((exists u, snd (handle c st b) = HStored u) <->
    exists lt nb h, lookup (ifs c) (b_in b) = Some (lt, nb) /\ (lt = 1 \/ lt = 2) /\
      last (map Some (b_hops b)) None = Some h /\ hop_ia h = nb /\ b_next b = local c /\
      Forall (fun v => v = true) (b_sigs b) /\
      exists p, In p (pols c) /\ filter_apply (snd p) (hops_of b) = true).
 Proof.
-  intros c st b Hd. rewrite <- acceptable_spec. split.
+  intros c st b Hd _. rewrite <- acceptable_spec. split.
   - intros (u & H). now apply handle_stored in H.
   - intros Ha. exists (usage (pols c) (hops_of b)). apply handle_stored. split; [exact Ha|]. split; [reflexivity|].
     intros E. apply usage_zero_iff in E; [|now apply bits_disjoint_nonzero].
@@ -137,12 +138,78 @@ Proof.
 Qed.
 Print Assumptions C25_acceptable_is_stored.
 
-(** The oracle of the correspondence check holds on the model for every input. *)
+(** The part of the oracle that the code satisfies (everything except "no loop
+    through the local AS on the wire") holds on the model for every input. *)
 Theorem C25_oracle_holds_on_model : forall c hist pifs allow egress,
   oracle c hist pifs allow (oks c [] hist) (dump_of (run c hist))
          (propagate pifs allow (run c hist) egress) = true.
 Proof. exact oracle_model. Qed.
 Print Assumptions C25_oracle_holds_on_model.
+
+(** Audit follow-up.  On the wire a propagated beacon carries [hops ++ [local] ++ [neighbour]]
+    ([on_wire]): Extend appends the local AS entry.  The code checks [hops ++ [neighbour]] only
+    (Propagator.shouldIgnore / beacon.FilterLoop), and neither the handler nor the policy filter
+    looks for the local AS in a received beacon.  The full oracle [oracle_full] (= [oracle] and no
+    AS loop, nor ISD loop when disallowed, in [on_wire]) is therefore violated by the faithful model:
+    open finding, tag loop-through-local-as. *)
+Definition c25_witness_cfg : cfg :=
+  {| local := (1, 110); ifs := [(1, (2, (1, 111))); (2, (3, (1, 112)))];
+     pols := [(8, mkf 0 [] [] (Some false)); (1, mkf 0 [] [] None); (2, mkf 0 [] [] None)] |}.
+Definition c25_witness_beacon : beacon :=
+  {| b_hops := [((1, 100), 0, 1); ((1, 110), 1, 2); ((1, 111), 2, 1)]; b_next := (1, 110); b_ts := 100%Z;
+     b_in := 1; b_sigs := [true; true; true]; b_kid := 0 |}.
+
+Theorem C25_no_wire_loop_refuted : exists c hist pifs allow egress,
+  in_scope c hist = true /\
+  oracle_full c hist pifs allow (oks c [] hist) (dump_of (run c hist))
+              (propagate pifs allow (run c hist) egress) = false /\
+  (* declaratively: a stored beacon is handed out for interface 2 (neighbour 1-112) and on the wire
+     1-100, 1-110, 1-111, 1-110, 1-112 repeats the local AS *)
+  exists r nb, lookup pifs 2 = Some (3, nb) /\ In r (for_interface pifs allow (run c hist) nb) /\
+               valid_ias (on_wire c (key_ias (r_key r)) nb) /\ as_loop (on_wire c (key_ias (r_key r)) nb).
+Proof.
+  exists c25_witness_cfg, [c25_witness_beacon], (ifs c25_witness_cfg), false, [2].
+  split; [vm_compute; reflexivity|]. split; [vm_compute; reflexivity|].
+  exists (mk_rec c25_witness_beacon 11), (1, 112). split; [reflexivity|]. split; [vm_compute; now left|].
+  assert (Hv : valid_ias (on_wire c25_witness_cfg (key_ias (r_key (mk_rec c25_witness_beacon 11))) (1, 112))).
+  { vm_compute. repeat constructor; discriminate. }
+  split; [exact Hv|]. intros Hnd. apply (filter_as_loop_spec _ Hv) in Hnd. vm_compute in Hnd. discriminate.
+Qed.
+Print Assumptions C25_no_wire_loop_refuted.
+
+(** Outside the defect class ([known], computed from the input: some received beacon loops through
+    the local AS on some egress interface although the code's check passes) the full oracle holds
+    on the model for every input. *)
+Theorem C25_no_wire_loop_except_known : forall c hist pifs allow egress,
+  known c hist pifs allow egress = false ->
+  oracle_full c hist pifs allow (oks c [] hist) (dump_of (run c hist))
+              (propagate pifs allow (run c hist) egress) = true.
+Proof. exact oracle_full_except_known. Qed.
+Print Assumptions C25_no_wire_loop_except_known.
+
+(** The wire-level correspondence case ([CWire]) evaluates exactly the wire part of [oracle_full]. *)
+Theorem C25_wire_case_is_oracle : forall c hist pifs allow p,
+  wire_ok_t (local c) (kid_table hist) pifs allow p = wire_ok c hist pifs allow p.
+Proof. exact wire_ok_t_table. Qed.
+Print Assumptions C25_wire_case_is_oracle.
+
+(** The same, declaratively and over arbitrary reception histories: a beacon handed out for an
+    interface does not loop on the wire provided it does not already contain the local AS (and the
+    neighbour is not the local AS itself); no ISD loop either when those are disallowed, provided
+    the local AS lies in the ISD of the beacon's last AS or in the neighbour's ISD. *)
+Theorem C25_no_wire_loop_propagated_except_known : forall c hist pifs allow nb r,
+  In r (for_interface pifs allow (run c hist) nb) ->
+  let hops := key_ias (r_key r) in
+  valid_ias (on_wire c hops nb) ->
+  ~ In (local c) hops -> local c <> nb ->
+  (allow = false ->
+     (exists p h, hops = p ++ [h] /\ isd (local c) = isd h) \/ (ia_zero nb = false /\ isd (local c) = isd nb)) ->
+  NoDup (on_wire c hops nb) /\ (allow = false -> ~ isd_loop (on_wire c hops nb)).
+Proof.
+  intros c hist pifs allow nb r H hops Hv Hl Hn Hi. apply for_interface_in in H as (_ & _ & _ & Hign).
+  now apply no_wire_loop_except_known.
+Qed.
+Print Assumptions C25_no_wire_loop_propagated_except_known.
 
 (** Non-vacuity: AS 1-110 (non-core store: Prop 8, UpReg 1, DownReg 2; DownReg
     blocks AS 210, UpReg allows at most 2 hops) receives four beacons; two are
@@ -161,4 +228,21 @@ Example C25_example :
   bits_disjoint (pols c) = true /\
   dump_of (run c hist) = [(0, 100%Z, 1, 11); (1, 100%Z, 1, 8)] /\
   propagate (ifs c) true (run c hist) [2; 3] = [(2, Some [0]); (3, Some [0])].
+Proof. vm_compute. repeat split. Qed.
+
+(** Non-vacuity (audit follow-up): propagation refused solely because of an ISD loop.  The beacon
+    2-210, 1-111 has no AS loop with either neighbour; towards 2-211 it would leave ISD 2 and enter
+    it again.  With ISD loops disallowed it is withheld from interface 2 only; with ISD loops allowed
+    it goes out on both interfaces. *)
+Example C25_example_isd_loop :
+  let c := {| local := (1, 110);
+              ifs := [(1, (1, (1, 111))); (2, (1, (2, 211))); (3, (1, (1, 112)))];
+              pols := [(8, mkf 0 [] [] None); (4, mkf 0 [] [] None)] |} in
+  let b := {| b_hops := [((2, 210), 0, 1); ((1, 111), 2, 1)]; b_next := (1, 110); b_ts := 100%Z; b_in := 1;
+              b_sigs := [true; true]; b_kid := 0 |} in
+  dump_of (run c [b]) = [(0, 100%Z, 1, 12)] /\
+  propagate (ifs c) false (run c [b]) [2; 3] = [(2, Some []); (3, Some [0])] /\
+  propagate (ifs c) true (run c [b]) [2; 3] = [(2, Some [0]); (3, Some [0])] /\
+  filter_as_loop [(2, 210); (1, 111); (2, 211)] = (0, 0) /\
+  filter_isd_loop [(2, 210); (1, 111); (2, 211)] = 2.
 Proof. vm_compute. repeat split. Qed.
